@@ -126,6 +126,16 @@ def op_features(schema, doc_text):
             feats.add(f"fragment_on_{tkind(ct)}")
             sel(d.selection_set, ct, ct, False)
     for fname, rels in spread_rels.items():
+        if "same" in rels and fname in frags:
+            def has_abstract_field(ss, t):
+                for x in ss.selections:
+                    if x.kind == "field" and x.selection_set is not None and hasattr(t, "fields") and x.name.value in t.fields:
+                        ft = get_named_type(t.fields[x.name.value].type)
+                        if is_abstract_type(ft) or has_abstract_field(x.selection_set, ft):
+                            return True
+                return False
+            if has_abstract_field(frags[fname].selection_set, schema.get_type(frags[fname].type_condition.name.value)):
+                feats.add("abstract_field_in_mixin_fragment")
         if "same" in rels and len(rels) > 1:
             feats.add("fragment_same_and_other_type_spread")
     return feats
